@@ -419,9 +419,38 @@ theorem split_cat_eq_whole (d : Nat) (t : T α) (hd : d < t.shape.length) (ss : 
   simp only [Nat.sub_zero] at h
   exact T.Eqv.trans h (narrow_full d t hd)
 
+/-- a worker function that is defined slice by slice along `d`: applying it to a slice is slicing its result -/
+def SliceWiseT {β : Type} (d : Nat) (f : T α → T β) : Prop :=
+  ∀ (t : T α) (s l : Nat), f (narrow d s l t) = narrow d s l (f t)
+
+/-- an element-wise function (`td.apply(lambda x: g(x))`, `td + 1`, …) on a tensordict of any batch shape -/
+def mapT {β : Type} (g : α → β) (t : T α) : T β := ⟨t.shape, fun c => g (t.get c)⟩
+
+theorem mapT_sliceWise {β : Type} (g : α → β) (d : Nat) : SliceWiseT d (mapT g) := fun _ _ _ => rfl
+
+/-- **`td.map(f, dim=d, chunksize=ss)` on coordinate maps**: for a worker function defined slice by slice along `d` that keeps
+    the length of that dim, concatenating along `d` the results on the chunks `td.split(ss, d)` is `f(td)`, coordinate by
+    coordinate — any batch shape, any `d` inside it, any chunk size. -/
+theorem map_split_cat_eq_whole {β : Type} (d : Nat) (t : T α) (f : T α → T β) (hf : SliceWiseT d f)
+    (hd : d < (f t).shape.length) (hn : ((f t).shape[d]?).getD 0 = (t.shape[d]?).getD 0) (ss : Nat) (hss : 0 < ss) :
+    let n := (t.shape[d]?).getD 0
+    (catList d (f (sliceOf d t (0, min n ss))) ((splitLoop n ss (min n ss)).map fun p => f (sliceOf d t p))).Eqv (f t) := by
+  intro n
+  have h := split_cat_eq_whole d (f t) hd ss hss
+  simp only [hn] at h
+  have e1 : f (sliceOf d t (0, min n ss)) = sliceOf d (f t) (0, min n ss) := hf t _ _
+  have e2 : ((splitLoop n ss (min n ss)).map fun p => f (sliceOf d t p)) = (splitLoop n ss (min n ss)).map (sliceOf d (f t)) :=
+    List.map_congr_left fun p _ => hf t _ _
+  rw [e1, e2]
+  exact h
+
 -- non-vacuity: a 2 x 5 tensordict chunked along dim 1 in pieces of 2
 example : (catList 1 (sliceOf 1 (⟨[2, 5], fun c => c⟩ : T (List Nat)) (0, 2))
     ((splitLoop 5 2 2).map (sliceOf 1 ⟨[2, 5], fun c => c⟩))).Eqv ⟨[2, 5], fun c => c⟩ :=
   split_cat_eq_whole 1 ⟨[2, 5], fun c => c⟩ (by decide) 2 (by decide)
+
+example : (catList 1 (mapT (· ++ [7]) (sliceOf 1 (⟨[2, 5], fun c => c⟩ : T (List Nat)) (0, 2)))
+    ((splitLoop 5 2 2).map fun p => mapT (· ++ [7]) (sliceOf 1 ⟨[2, 5], fun c => c⟩ p))).Eqv (mapT (· ++ [7]) ⟨[2, 5], fun c => c⟩) :=
+  map_split_cat_eq_whole 1 ⟨[2, 5], fun c => c⟩ (mapT (· ++ [7])) (mapT_sliceWise _ 1) (by decide) rfl 2 (by decide)
 
 end TdVerif.Props.C12
